@@ -15,7 +15,7 @@ const char* const PROP_ID = "C17";
 
 namespace {
 // ".a.txt" / "..b.dat" begin with dots that are NOT a "./" prefix: they must never be confused with "a.txt" / "b.dat"
-const char* pool[] = {"a.txt", "A.TXT", "b.dat", "B.dat", "c", "readme.TXT", "d.txt", "trk1", "TRK1", "e.map", "a.TXT", "song", "x_y.bmp", "X_Y.BMP", ".a.txt", "..b.dat"};
+const char* pool[] = {"a.txt", "A.TXT", "b.dat", "B.dat", "c", "readme.TXT", "d.txt", "trk1", "TRK1", "e.map", "a.TXT", "song", "x_y.bmp", "X_Y.BMP", ".a.txt", "..b.dat", "q{1}.dat", "q[1].dat"};   // the last two differ only in bytes that a sloppy upper-casing maps onto each other
 const size_t poolN = sizeof pool / sizeof pool[0];
 
 struct Arch { std::string file; bool isVol; bool loaded; std::vector<std::string> names; std::vector<std::vector<uint8_t>> data; unsigned unusedSlots = 0; uint32_t unusedFill = 0; };
@@ -49,6 +49,9 @@ Layout gen_layout(Tape& t, unsigned serial) {
 			if (!clash) names.push_back(n);
 		}
 		std::stable_sort(names.begin(), names.end(), [](const std::string& x, const std::string& y) { return refvol::icmp(x, y) < 0; });
+		// one archive in six is NOT in binary-search order (a foreign or hand-made file): the statement speaks of every archive, and
+		// membership, index lookup and resolution must agree on it just the same (first match in index order)
+		if (names.size() >= 2 && t.below(6) == 0) { for (size_t k = names.size(); k > 1; --k) std::swap(names[k - 1], names[t.below(k)]); }
 		a.names = names;
 		for (size_t k = 0; k < names.size(); ++k) a.data.push_back(content_for(a.file, names[k], k + t.u8()));
 		L.archs.push_back(a);
